@@ -107,6 +107,11 @@ def _terminating(fn, case):
     return ('inconclusive', None)
 
 
+def _mode_kw(var):
+    from .. import rt
+    return rt.mode_kw('zinc', var)
+
+
 def check_text(text, acc=None, want_reject=False, what=None, broken_class=False):
     """the oracle of parts 1-3; returns 'parsed' | 'rejected' | 'inconclusive'"""
     import hszinc
@@ -114,7 +119,7 @@ def check_text(text, acc=None, want_reject=False, what=None, broken_class=False)
     case = {'text': text}
     if what:
         case['breaker'] = what
-    kind, val = _terminating(lambda: hszinc.parse(text, mode=hszinc.MODE_ZINC, single=False), case)
+    kind, val = _terminating(lambda: hszinc.parse(text, single=False, **_mode_kw(len(text))), case)
     if kind == 'inconclusive':
         return 'inconclusive'
     if kind == 'exc' and isinstance(val, ZincParseException):
@@ -136,7 +141,7 @@ def check_text(text, acc=None, want_reject=False, what=None, broken_class=False)
         # a structurally broken document (one of the classes the property lists) must not yield a grid through
         # single=True either; for other rejected texts the property does not say what single=True does with the
         # grids after the first, only that nothing but ZincParseException escapes
-        k1, v1 = _terminating(lambda: hszinc.parse(text, mode=hszinc.MODE_ZINC, single=True), case)
+        k1, v1 = _terminating(lambda: hszinc.parse(text, single=True, **_mode_kw(len(text) + 1)), case)
         if k1 == 'ok' and (want_reject or broken_class):
             raise Violation('rejected-document-yields-grid', case, 'parse(single=False) rejects the document but parse(single=True) returned %s' % (
                 type(v1).__name__,))
@@ -161,7 +166,7 @@ def check_text(text, acc=None, want_reject=False, what=None, broken_class=False)
 def check_scalar_text(text, ver):
     import hszinc
     case = {'scalar': text, 'ver': ver}
-    kind, val = _terminating(lambda: hszinc.parse_scalar(text, mode=hszinc.MODE_ZINC, version=ver), case)
+    kind, val = _terminating(lambda: hszinc.parse_scalar(text, version=ver, **_mode_kw(len(text))), case)
     if kind == 'inconclusive':
         return 'inconclusive'
     if kind == 'exc':
